@@ -69,6 +69,10 @@ def generate(rng, tier):
         n, nso = 30000, 5000
     for i in range(n):
         yield L.random_case(rng)
+    for i in range(n // 3):
+        yield L.random_chain_case(rng)
+    for i in range(n // 3):
+        yield L.random_specific_case(rng)
     for i in range(n // 10):
         yield L.random_case(rng, ordinal=True)
     for i in range(n // 30):
@@ -265,6 +269,17 @@ def _oracle_adapt(kind, q, hier, src, src_type, target, info, ctx, obs, determin
             hits.append(_hit("factory-exception-swallowed", "a factory raised but adapt gave %s" % obs, query=q))
         return hits
     good = [c for c in chains if L.chain_succeeds(c, info, ctx.bykey, src is None)] if deterministic else None
+    if good:
+        if len(set(len(c) for c in good)) > 1:
+            tags.add("minimality:several-lengths")
+        ones = [c for c in good if len(c) == 1]
+        if len(ones) > 1:
+            tags.add("specificity:choice")
+            fs = [info[c[0]][0] for c in ones]
+            if any(a is not b and issubclass(a, b) for a in fs for b in fs):
+                tags.add("specificity:related-protocols")
+    if deterministic and chains and not good:
+        tags.add("completeness:all-chains-refused")
     sfx = ""
     if obs.startswith("chain") or obs in ("yes", "self"):
         tags.add("found")
